@@ -35,7 +35,7 @@
 using namespace vh;
 
 static const char *DOMAIN = "example.org";
-static const QByteArray NONCE = "verifnonce";
+static const QByteArray STALE_NONCE = "c3RhbGUgbm9uY2Ugb2YgYW4gZWFybGllciBzZXNzaW9u";   // nonce of an earlier, recorded session
 static bool g_activity = false;
 
 // ---------------------------------------------------------------------------------------------- password checker
@@ -49,7 +49,6 @@ public:
     QList<QPointer<QXmppPasswordReply>> pending;
     QList<bool> pendingIsPw;   // parallel to `pending`
     long long asked = 0;
-    bool stock = false;        // true: behave like the stock checker (reply finishes on the next event loop turn)
 
     QXmppPasswordReply::Error getPassword(const QXmppPasswordRequest &request, QString &password) override
     {
@@ -72,7 +71,6 @@ public:
         } else {
             reply->setError(error);
         }
-        if (stock) { reply->finishLater(); return reply; }
         pending << reply; pendingIsPw << true; asked++;
         return reply;
     }
@@ -86,7 +84,6 @@ public:
         } else {
             reply->setError(error);
         }
-        if (stock) { reply->finishLater(); return reply; }
         pending << reply; pendingIsPw << false; asked++;
         return reply;
     }
@@ -102,8 +99,27 @@ public:
     }
 };
 
+// The documented way to write a checker: only getPassword()/hasGetPassword(); checkPassword() and getDigest() are the
+// library's own (src/server/QXmppPasswordChecker.cpp), replies finish on the next event-loop turn (finishLater()).
+class GetPasswordOnlyChecker : public QXmppPasswordChecker
+{
+public:
+    QMap<QString, QString> table;
+    QXmppPasswordReply::Error getPassword(const QXmppPasswordRequest &request, QString &password) override
+    {
+        if (request.username() == u"tempuser") return QXmppPasswordReply::TemporaryError;
+        if (table.contains(request.username())) {
+            password = table.value(request.username());
+            return QXmppPasswordReply::NoError;
+        }
+        return QXmppPasswordReply::AuthorizationError;
+    }
+    bool hasGetPassword() const override { return true; }
+};
+
 // ---------------------------------------------------------------------------------------------- canonicalisation
 struct Canon {
+    QByteArray lastNonce = "no-challenge-seen";   // nonce of the last DIGEST-MD5 challenge any peer of this fixture received
     QStringList known { "v", "r", "r2" };
     QMap<QString, QString> gen;
     QString res(const QString &r)
@@ -135,7 +151,7 @@ static QString canonElement(const QDomElement &e, Canon &cn)
     auto chal = [&](const QByteArray &d) -> QString {
         if (d.isEmpty()) return "-";
         if (d.startsWith("rspauth=")) return "r";
-        if (d.contains("nonce=")) return "n";
+        if (d.contains("nonce=")) { cn.lastNonce = QXmppSaslDigestMd5::parseMessage(d).value("nonce"); return "n"; }
         return "?";
     };
     if (tag == "features") {
@@ -219,7 +235,7 @@ static QString joinOrDash(const QStringList &l) { return l.isEmpty() ? QString("
 // ---------------------------------------------------------------------------------------------- client elements
 static QByteArray b64(const QByteArray &d) { return d.toBase64(); }
 
-static QByteArray digestResponse(const QString &claimed, const QString &secretUser, const QString &secretPass, bool qopOk)
+static QByteArray digestResponse(const QString &claimed, const QString &secretUser, const QString &secretPass, bool qopOk, const QByteArray &NONCE)
 {
     const QByteArray secret = QCryptographicHash::hash((secretUser + ":" + DOMAIN + ":" + secretPass).toUtf8(), QCryptographicHash::Md5);
     const QByteArray cnonce = "cn", nc = "00000001", uri = QByteArray("xmpp/") + DOMAIN;
@@ -229,7 +245,7 @@ static QByteArray digestResponse(const QString &claimed, const QString &secretUs
     const QByteArray HA2 = QCryptographicHash::hash(A2, QCryptographicHash::Md5).toHex();
     const QByteArray KD = HA1 + ':' + NONCE + ':' + nc + ':' + cnonce + ":auth:" + HA2;
     const QByteArray resp = QCryptographicHash::hash(KD, QCryptographicHash::Md5).toHex();
-    return "charset=utf-8,cnonce=cn,digest-uri=\"" + uri + "\",nc=" + nc + ",nonce=" + NONCE + ",qop=" + (qopOk ? "auth" : "auth-int") +
+    return "charset=utf-8,cnonce=cn,digest-uri=\"" + uri + "\",nc=" + nc + ",nonce=\"" + NONCE + "\",qop=" + (qopOk ? "auth" : "auth-int") +
         ",realm=" + DOMAIN + ",response=" + resp + ",username=" + claimed.toUtf8();
 }
 
@@ -237,32 +253,35 @@ static QByteArray digestResponse(const QString &claimed, const QString &secretUs
 //                 c:user:pass  PLAIN credentials  \0user\0pass
 //                 m            junk bytes without NUL
 //                 x            text that is not base64
-//                 d:claimed:suser:spass:q   DIGEST-MD5 response naming `claimed`, computed with the secret of (suser, spass); q = a (qop=auth) | b
-static QByteArray payloadText(const QString &w)
+//                 d:claimed:suser:spass:q   DIGEST-MD5 response naming `claimed`, computed with the secret of (suser, spass) over the
+//                                           nonce of the last challenge received; q = a (qop=auth) | b; spass may be empty
+//                 r:claimed:suser:spass     the same, but as recorded in an earlier session: computed over (and carrying) a stale nonce
+static QByteArray payloadText(const QString &w, const QByteArray &nonce)
 {
     if (w == "-") return "";
     if (w == "m") return b64("junk");
     if (w == "x") return "!!!";
     auto f = w.split(':');
     if (f[0] == "c" && f.size() == 3) return b64(QByteArray(1, '\0') + f[1].toUtf8() + QByteArray(1, '\0') + f[2].toUtf8());
-    if (f[0] == "d" && f.size() == 5) return b64(digestResponse(f[1], f[2], f[3], f[4] == "a"));
+    if (f[0] == "d" && f.size() == 5) return b64(digestResponse(f[1], f[2], f[3], f[4] == "a", nonce));
+    if (f[0] == "r" && f.size() == 4) return b64(digestResponse(f[1], f[2], f[3], true, STALE_NONCE));
     return "";
 }
 static QString attr(const char *name, const QString &v) { return v == "-" ? QString() : QString(" %1='%2'").arg(name, v); }
 
-static QByteArray opXml(const QStringList &w)
+static QByteArray opXml(const QStringList &w, const QByteArray &nonce = QByteArray())
 {
     const QString k = w[0];
     if (k == "open")
         return QString("<?xml version='1.0'?><stream:stream to='%1' xmlns='jabber:client' xmlns:stream='http://etherx.jabber.org/streams' version='1.0'>").arg(w[1]).toUtf8();
-    if (k == "auth1") return "<auth xmlns='urn:ietf:params:xml:ns:xmpp-sasl' mechanism='" + w[1].toUtf8() + "'>" + payloadText(w[2]) + "</auth>";
+    if (k == "auth1") return "<auth xmlns='urn:ietf:params:xml:ns:xmpp-sasl' mechanism='" + w[1].toUtf8() + "'>" + payloadText(w[2], nonce) + "</auth>";
     if (k == "auth2") {
         QByteArray bind;
         if (w[3] != "-") { QString tag = w[3].mid(2); bind = "<bind xmlns='urn:xmpp:bind:0'>" + (tag.isEmpty() ? QByteArray() : "<tag>" + tag.toUtf8() + "</tag>") + "</bind>"; }
-        return "<authenticate xmlns='urn:xmpp:sasl:2' mechanism='" + w[1].toUtf8() + "'><initial-response>" + payloadText(w[2]) + "</initial-response>" + bind + "</authenticate>";
+        return "<authenticate xmlns='urn:xmpp:sasl:2' mechanism='" + w[1].toUtf8() + "'><initial-response>" + payloadText(w[2], nonce) + "</initial-response>" + bind + "</authenticate>";
     }
-    if (k == "resp1") return "<response xmlns='urn:ietf:params:xml:ns:xmpp-sasl'>" + payloadText(w[1]) + "</response>";
-    if (k == "resp2") return "<response xmlns='urn:xmpp:sasl:2'>" + payloadText(w[1]) + "</response>";
+    if (k == "resp1") return "<response xmlns='urn:ietf:params:xml:ns:xmpp-sasl'>" + payloadText(w[1], nonce) + "</response>";
+    if (k == "resp2") return "<response xmlns='urn:xmpp:sasl:2'>" + payloadText(w[1], nonce) + "</response>";
     if (k == "abort1") return "<abort xmlns='urn:ietf:params:xml:ns:xmpp-sasl'/>";
     if (k == "abort2") return "<abort xmlns='urn:xmpp:sasl:2'/>";
     if (k == "bind")
@@ -324,7 +343,9 @@ static void settle()
 }
 
 struct Fixture {
-    TableChecker checker;
+    TableChecker checker;              // own checkPassword/getDigest, replies finish on `deliver`
+    GetPasswordOnlyChecker stockChecker;   // library defaults, replies finish on the next event-loop turn
+    const bool stock;
     std::unique_ptr<QXmppServer> server;
     quint16 port = 0;
     std::unique_ptr<Peer> victim, attacker;
@@ -333,12 +354,13 @@ struct Fixture {
     Canon cn;
     bool ok = false;
 
-    Fixture()
+    explicit Fixture(bool stockFlavour = false) : stock(stockFlavour)
     {
         checker.table = { { "victim", "vpw" }, { "mallory", "mpw" }, { "eve", "epw" } };
+        stockChecker.table = checker.table;
         server = std::make_unique<QXmppServer>();
         server->setDomain(DOMAIN);
-        server->setPasswordChecker(&checker);
+        server->setPasswordChecker(stock ? static_cast<QXmppPasswordChecker *>(&stockChecker) : &checker);
         if (!server->listenForClients(QHostAddress::LocalHost, 0)) return;
         auto l = server->findChildren<QTcpServer *>();
         if (l.isEmpty()) return;
@@ -416,7 +438,7 @@ struct Obs {
 static Obs applyOp(Fixture &f, const QStringList &w)
 {
     if (w[0] == "deliver") f.checker.deliver(w.value(1).toInt());
-    else f.attacker->send(opXml(w));
+    else f.attacker->send(opXml(w, f.cn.lastNonce));
     settle();
     Obs o;
     o.a = f.attacker->take(f.cn);
@@ -482,10 +504,12 @@ struct Oracle {
         if (!o.jid.isEmpty() && !jidApproved(o.jid)) return o.jid.startsWith("/") ? "C16:preauth-bind" : unapproved;
         for (auto &e : o.auth) if (!jidApproved(e.mid(5, e.size() - 6))) return unapproved;
         // (2) nothing bound, routed or answered before authentication
-        const bool authedNow = before || (w[0] == "deliver" || w[0].startsWith("resp")) && sawSuccess;   // SASL2 may bind within the success step
+        bool succNow = false;
+        for (auto &e : o.a) if (e.startsWith("succ")) succNow = true;
+        const bool authedNow = before || succNow;   // SASL2 may bind within the step that reports success
         for (auto &e : o.sig) if (e.startsWith("conn(") && !authedNow) return "C16:preauth-bind";
         for (auto &e : o.a) {
-            if (e.startsWith("iq(result,b1") && !authedNow) return "C16:preauth-bind";
+            if (e.startsWith("iq(result,b1") && !before) return "C16:preauth-bind";
             if (e.startsWith("iq(result,s1") && !before) return "C16:preauth-session-answered";
             if ((e.startsWith("iq(") || e.startsWith("message(") || e.startsWith("presence(")) && !authedNow) return "C16:preauth-stanza-answered";
         }
@@ -550,10 +574,11 @@ struct UbGuard {
 };
 
 // returns the index of the op after which the attacker's connection was gone (or script size)
-static size_t runScript(const Script &sc)
+static size_t runScript(const Script &sc, bool stock = false)
 {
-    corr("reset", "ok");
-    Fixture f;
+    corr(stock ? "reset stock" : "reset", "ok");
+    stat(stock ? "scripts_getPassword_only_checker" : "scripts_own_checker");
+    Fixture f(stock);
     if (!f.ok || !f.connectAttacker()) { fprintf(stderr, "fixture failed\n"); exit(3); }
     Oracle orc(f.checker.table);
     UbGuard g;
@@ -591,14 +616,14 @@ static size_t runScript(const Script &sc)
 
 // exhaustive: every word of length `depth` over `alpha` after `prefix`; a word whose connection died after position k
 // stands for all words sharing those k+1 symbols (the rest would be sent to a closed socket).
-static void enumerate(const Script &prefix, const std::vector<std::string> &alpha, int depth)
+static void enumerate(const Script &prefix, const std::vector<std::string> &alpha, int depth, bool stock = false)
 {
     std::vector<int> idx(depth, 0);
     const int n = (int)alpha.size();
     while (true) {
         Script sc = prefix;
         for (int d = 0; d < depth; d++) sc.push_back(alpha[idx[d]]);
-        size_t dead = runScript(sc);
+        size_t dead = runScript(sc, stock);
         int bump = depth - 1;
         if (dead < sc.size()) {
             int k = (int)dead - (int)prefix.size();   // position inside the enumerated part
@@ -625,6 +650,8 @@ static std::string randomOp(Rng &r)
     auto dresp = [&]() {
         std::string claimed = user(), su = r.below(3) ? claimed : pick(r, { "mallory", "eve" });
         std::string sp = su == "mallory" ? (r.below(4) ? "mpw" : "bad") : su == "eve" ? (r.below(4) ? "epw" : "bad") : "bad";
+        if (r.below(4) == 0) sp = "";   // computed from the empty password
+        if (r.below(8) == 0) return "r:" + claimed + ":" + claimed + ":" + (claimed == "victim" ? "vpw" : claimed == "mallory" ? "mpw" : claimed == "eve" ? "epw" : "x");   // a recorded response
         return "d:" + claimed + ":" + su + ":" + sp + ":" + (r.below(8) ? "a" : "b");
     };
     auto payload = [&]() -> std::string {
@@ -676,10 +703,8 @@ static Script randomScript(Rng &r, int maxLen)
 // which user does the server announce when it reports success?
 static void stockCheckerPipelined()
 {
-    Fixture f;
-    if (!f.ok) return;
-    f.checker.stock = true;
-    if (!f.connectAttacker()) return;
+    Fixture f(true);
+    if (!f.ok || !f.connectAttacker()) return;
     applyOp(f, { "open", DOMAIN });
     f.attacker->send(opXml({ "auth1", "PLAIN", "c:mallory:mpw" }) + opXml({ "auth1", "PLAIN", "c:victim:bad" }));
     settle();
@@ -698,7 +723,6 @@ int main(int argc, char **argv)
 {
     QCoreApplication app(argc, argv);
     Args a = parseArgs(argc, argv);
-    QXmppSaslDigestMd5::setNonce(NONCE);
     if (!a.replay.empty()) {
         Script sc;
         for (auto &op : QString::fromStdString(a.replay).split(';')) if (!op.trimmed().isEmpty()) sc.push_back(op.trimmed().toStdString());
@@ -740,8 +764,22 @@ int main(int argc, char **argv)
         { "msg - victim@example.org/v", "open example.org", "msg - victim@example.org/v" },
         { "open evil.org", "msg - victim@example.org/v" },
     };
-    for (auto &sc : corpus) runScript(sc);
-    stat("corpus_scripts", (long long)corpus.size());
+    // DIGEST-MD5 as a rejected / unknown user with the empty password, and a recorded response replayed over a fresh nonce
+    const std::vector<Script> corpus2 = {
+        { "open example.org", "auth1 DIGEST-MD5 -", "resp1 d:nobody:nobody::a", "deliver 0", "resp1 -", "bind r", "msg - victim@example.org/v" },
+        { "open example.org", "auth2 DIGEST-MD5 - b:", "resp2 d:nobody:nobody::a", "deliver 0", "resp2 -", "msg - victim@example.org/v" },
+        { "open example.org", "auth1 DIGEST-MD5 -", "resp1 d:tempuser:tempuser::a", "deliver 0", "resp1 -", "bind r" },
+        { "open example.org", "auth1 DIGEST-MD5 -", "resp1 d:victim:victim::a", "deliver 0", "resp1 -", "bind v" },
+        { "open example.org", "auth1 DIGEST-MD5 -", "resp1 r:victim:victim:vpw", "deliver 0", "resp1 -", "bind v", "msg - eve@example.org" },
+        { "open example.org", "auth2 DIGEST-MD5 - -", "resp2 r:victim:victim:vpw", "deliver 0", "resp2 -", "bind v", "msg - eve@example.org" },
+        { "open example.org", "auth1 DIGEST-MD5 -", "resp1 r:mallory:mallory:mpw", "deliver 0" },
+        { "open example.org", "auth1 DIGEST-MD5 -", "resp1 d:mallory:mallory:mpw:a", "deliver 0", "resp1 -", "bind r", "msg - victim@example.org/v" },
+    };
+    for (int stock = 0; stock < 2; stock++) {
+        for (auto &sc : corpus) runScript(sc, stock);
+        for (auto &sc : corpus2) runScript(sc, stock);
+    }
+    stat("corpus_scripts", (long long)(2 * (corpus.size() + corpus2.size())));
     stockCheckerPipelined();
 
     const std::vector<std::string> full = {
@@ -768,6 +806,26 @@ int main(int argc, char **argv)
     enumerate({ "open example.org", "auth1 PLAIN c:mallory:mpw", "deliver 0" }, full, depthAuthed);
     enumerate({ "open example.org", "auth2 PLAIN c:mallory:mpw b:", "deliver 0" }, compact, depthAuthed + 1);
     stat("exhaustive_depth_after_login_full_alphabet", depthAuthed);
+    // the same with a checker that implements only getPassword() (library checkPassword/getDigest, replies on the next loop turn)
+    const int depthStock = thorough ? 3 : 2;
+    for (int d = 1; d <= depthStock; d++) enumerate({ "open example.org" }, full, d, true);
+    enumerate({ "open example.org", "auth1 PLAIN c:mallory:mpw" }, full, depthStock, true);
+    stat("exhaustive_depth_getPassword_only_checker", depthStock);
+    // DIGEST-MD5 exchanges: right / wrong / empty password for known, unknown and temporarily failing users, somebody else's
+    // secret, recorded responses over a stale nonce -- both checker flavours, SASL and SASL2
+    for (int v = 1; v <= 2; v++) {
+        const std::string r = v == 1 ? "resp1 " : "resp2 ";
+        const std::vector<std::string> digestAlpha = {
+            r + "d:mallory:mallory:mpw:a", r + "d:mallory:mallory:bad:a", r + "d:mallory:mallory::a", r + "d:nobody:nobody::a",
+            r + "d:nobody:nobody:bad:a", r + "d:tempuser:tempuser::a", r + "d:victim:victim::a", r + "d:victim:mallory:mpw:a",
+            r + "r:victim:victim:vpw", r + "r:mallory:mallory:mpw", r + "-", "deliver 0", "bind r", "msg - victim@example.org/v",
+        };
+        const int depthDigest = (thorough ? 4 : 3) - (v - 1);
+        for (int stock = 0; stock < 2; stock++)
+            enumerate({ "open example.org", v == 1 ? "auth1 DIGEST-MD5 -" : "auth2 DIGEST-MD5 - b:" }, digestAlpha, depthDigest, stock);
+        stat("alphabet_digest", (long long)digestAlpha.size());
+    }
+    stat("exhaustive_depth_digest_alphabet", thorough ? 4 : 3);
     stat("exhaustive_depth_full_alphabet", depthFull); stat("alphabet_full", (long long)full.size());
     stat("exhaustive_depth_compact_alphabet", depthCompact); stat("alphabet_compact", (long long)compact.size());
 
@@ -776,7 +834,7 @@ int main(int argc, char **argv)
     for (int i = 0; i < nrand; i++) {
         Script sc = randomScript(rng, 20);
         if (i < 4) sample(joinScript(sc, sc.size()));
-        runScript(sc);
+        runScript(sc, i % 2);
     }
     stat("random_scripts", nrand);
     stat("elapsed_ms", timer.elapsed());
